@@ -5,8 +5,8 @@ use nundb::verif_hooks::{self, Hooks};
 use std::collections::BTreeMap;
 use std::panic::{catch_unwind, AssertUnwindSafe};
 use std::path::PathBuf;
-use std::sync::atomic::{AtomicU64, AtomicUsize, Ordering};
-use std::sync::{Arc, Mutex};
+use std::sync::atomic::{AtomicBool, AtomicU64, AtomicUsize, Ordering};
+use std::sync::{Arc, Condvar, Mutex};
 
 pub const USER: &str = "u";
 pub const PWD: &str = "p";
@@ -35,6 +35,70 @@ pub struct NodeCtx {
     pub last_dirty: Mutex<Vec<String>>,
     /// permutation applied to the user (non-$) keys only; system keys stay first, sorted
     pub user_perm: Mutex<Option<Vec<usize>>>,
+    /// outbound replication links handed over by the real supervisor's link threads (hook H7)
+    pub links: Mutex<Vec<Arc<LinkHandle>>>,
+    pub links_cv: Condvar,
+    pub shutdown: AtomicBool,
+    /// election sleeps: true = virtual (return at once), false = real sleep
+    pub virtual_sleep: AtomicBool,
+    pub sleeps: AtomicU64,
+    pub events: Mutex<Vec<String>>,
+}
+
+pub enum LinkCmd {
+    /// run one line coming back from the peer through the link's own Client (acks, ok, errors)
+    Deliver(String),
+    /// take everything the node queued for this peer
+    Drain,
+    Close,
+}
+
+pub enum LinkResp {
+    Delivered(Result<String, String>),
+    Drained(Vec<String>),
+}
+
+/// Explorer-side handle of one outbound link; the link thread itself serves the commands, so the
+/// link's real `Client` and channel receiver never leave the thread that owns them.
+pub struct LinkHandle {
+    pub peer: String,
+    pub self_addr: String,
+    pub is_primary: bool,
+    pub cmd: Mutex<std::sync::mpsc::Sender<LinkCmd>>,
+    pub resp: Mutex<std::sync::mpsc::Receiver<LinkResp>>,
+    pub closed: AtomicBool,
+}
+
+impl LinkHandle {
+    pub fn drain(&self) -> Vec<String> {
+        if self.closed.load(Ordering::SeqCst) {
+            return vec![];
+        }
+        if self.cmd.lock().unwrap().send(LinkCmd::Drain).is_err() {
+            return vec![];
+        }
+        match self.resp.lock().unwrap().recv_timeout(std::time::Duration::from_secs(20)) {
+            Ok(LinkResp::Drained(v)) => v,
+            _ => vec![],
+        }
+    }
+    pub fn deliver(&self, line: &str) -> Result<String, String> {
+        if self.closed.load(Ordering::SeqCst) {
+            return Err("link closed".into());
+        }
+        if self.cmd.lock().unwrap().send(LinkCmd::Deliver(line.to_string())).is_err() {
+            return Err("link thread gone".into());
+        }
+        match self.resp.lock().unwrap().recv_timeout(std::time::Duration::from_secs(20)) {
+            Ok(LinkResp::Delivered(r)) => r,
+            _ => Err("link thread did not answer".into()),
+        }
+    }
+    pub fn close(&self) {
+        if !self.closed.swap(true, Ordering::SeqCst) {
+            let _ = self.cmd.lock().unwrap().send(LinkCmd::Close);
+        }
+    }
 }
 
 impl NodeCtx {
@@ -46,6 +110,12 @@ impl NodeCtx {
             key_order: Mutex::new(None),
             last_dirty: Mutex::new(vec![]),
             user_perm: Mutex::new(None),
+            links: Mutex::new(vec![]),
+            links_cv: Condvar::new(),
+            shutdown: AtomicBool::new(false),
+            virtual_sleep: AtomicBool::new(true),
+            sleeps: AtomicU64::new(0),
+            events: Mutex::new(vec![]),
         })
     }
     pub fn install(self: &Arc<Self>) {
@@ -59,6 +129,13 @@ impl Hooks for NodeCtx {
     }
     fn now_nanos(&self) -> Option<u64> {
         Some(self.clock.fetch_add(1, Ordering::SeqCst) + 1)
+    }
+    fn sleep(&self, _dur: std::time::Duration, _site: &'static std::panic::Location<'static>) -> bool {
+        self.sleeps.fetch_add(1, Ordering::SeqCst);
+        self.virtual_sleep.load(Ordering::SeqCst)
+    }
+    fn event(&self, name: &'static str, detail: &str) {
+        self.events.lock().unwrap().push(format!("{} {}", name, detail));
     }
     fn order_keys(&self, keys: &mut Vec<(String, Value)>) {
         keys.sort_by(|a, b| a.0.cmp(&b.0));
@@ -82,6 +159,81 @@ impl Hooks for NodeCtx {
             }
         }
     }
+}
+
+/// Process-global hook object: threads spawned by nun-db itself (link threads) have no
+/// thread-local hooks; they are routed to their node's context through the Databases pointer.
+pub struct GlobalHooks {}
+pub static REGISTRY: Mutex<Vec<(usize, Arc<NodeCtx>)>> = Mutex::new(Vec::new());
+
+pub fn ctx_of(dbs: &Arc<Databases>) -> Option<Arc<NodeCtx>> {
+    let id = Arc::as_ptr(dbs) as usize;
+    REGISTRY.lock().unwrap().iter().find(|(p, _)| *p == id).map(|(_, c)| c.clone())
+}
+
+impl Hooks for GlobalHooks {
+    fn link_takeover(
+        &self,
+        peer: &str,
+        self_addr: &str,
+        is_primary: bool,
+        dbs: &Arc<Databases>,
+        client: &mut Client,
+        receiver: &mut Receiver<String>,
+    ) -> bool {
+        let ctx = match ctx_of(dbs) {
+            Some(c) => c,
+            None => return true, // node already gone: behave like a dead link
+        };
+        ctx.install();
+        let (cmd_tx, cmd_rx) = std::sync::mpsc::channel::<LinkCmd>();
+        let (resp_tx, resp_rx) = std::sync::mpsc::channel::<LinkResp>();
+        let handle = Arc::new(LinkHandle {
+            peer: peer.to_string(),
+            self_addr: self_addr.to_string(),
+            is_primary,
+            cmd: Mutex::new(cmd_tx),
+            resp: Mutex::new(resp_rx),
+            closed: AtomicBool::new(false),
+        });
+        {
+            ctx.links.lock().unwrap().push(handle.clone());
+            ctx.links_cv.notify_all();
+        }
+        loop {
+            match cmd_rx.recv_timeout(std::time::Duration::from_millis(200)) {
+                Ok(LinkCmd::Close) => break,
+                Ok(LinkCmd::Drain) => {
+                    let mut v = vec![];
+                    while let Ok(Some(m)) = receiver.try_next() {
+                        v.push(m)
+                    }
+                    let _ = resp_tx.send(LinkResp::Drained(v));
+                }
+                Ok(LinkCmd::Deliver(line)) => {
+                    let d = dbs.clone();
+                    let r = catch_unwind(AssertUnwindSafe(|| nundb::process_request::process_request(&line, &d, client)));
+                    let _ = resp_tx.send(LinkResp::Delivered(match r {
+                        Ok(resp) => Ok(resp_str(&resp)),
+                        Err(e) => Err(format!("{} at {:?}", panic_msg(&e), take_panic_loc())),
+                    }));
+                }
+                Err(std::sync::mpsc::RecvTimeoutError::Timeout) => {
+                    if ctx.shutdown.load(Ordering::SeqCst) {
+                        break;
+                    }
+                }
+                Err(_) => break,
+            }
+        }
+        handle.closed.store(true, Ordering::SeqCst);
+        verif_hooks::install_thread(None);
+        true
+    }
+}
+
+pub fn install_global_hooks() {
+    verif_hooks::install_global(Some(Arc::new(GlobalHooks {}) as Arc<dyn Hooks>));
 }
 
 pub fn fresh_dir(tag: &str) -> PathBuf {
@@ -123,6 +275,7 @@ impl Node {
             is_oplog_valid,
         ));
         Databases::load_all_dbs(&dbs);
+        REGISTRY.lock().unwrap().push((Arc::as_ptr(&dbs) as usize, ctx.clone()));
         Node {
             ctx,
             dbs,
@@ -164,7 +317,32 @@ impl Node {
     }
 
     pub fn remove_dir(&self) {
+        self.shutdown();
         let _ = std::fs::remove_dir_all(&self.ctx.dir);
+    }
+
+    /// release parked link threads and forget the node in the global registry
+    pub fn shutdown(&self) {
+        self.ctx.shutdown.store(true, Ordering::SeqCst);
+        for l in self.ctx.links.lock().unwrap().iter() {
+            l.close();
+        }
+        let id = Arc::as_ptr(&self.dbs) as usize;
+        REGISTRY.lock().unwrap().retain(|(p, _)| *p != id);
+    }
+
+    /// wait until `n` outbound links have been handed over by the supervisor's link threads
+    pub fn wait_links(&self, n: usize) -> bool {
+        let deadline = std::time::Instant::now() + std::time::Duration::from_secs(10);
+        let mut g = self.ctx.links.lock().unwrap();
+        while g.len() < n {
+            let now = std::time::Instant::now();
+            if now >= deadline {
+                return false;
+            }
+            g = self.ctx.links_cv.wait_timeout(g, deadline - now).unwrap().0;
+        }
+        true
     }
 }
 
